@@ -851,3 +851,26 @@ Proof.
   rewrite <- !effective_is_spec in Hr. change (effective (with_settings c s)) with (effective c) in Hr.
   rewrite Hco in Hr. cbn [c_settings with_settings] in Hr. rewrite Hno in Hr. discriminate.
 Qed.
+
+(* ------------------------------------------------------------------ last round: exception / Not Found / Forbidden views *)
+Lemma Facts_ok_special : special_views_opt_out = true.
+Proof. vm_compute. reflexivity. Qed.
+
+(* a view registered through add_exception_view / add_notfound_view / add_forbidden_view is never checked: whatever the
+   default options, the method, the origin, the token *)
+Lemma special_views_never_checked pr c r : c_explicit c = special_explicit -> view_outcome_p pr c r = Ran.
+Proof. apply opted_out_unchecked. Qed.
+
+(* ... and in general an exception view is checked only when told to: require_csrf=True on its own registration *)
+Lemma exception_view_checked_only_when_told pr c r :
+  c_exception_only c = true -> view_outcome_p pr c r <> Ran -> c_explicit c = Some true.
+Proof.
+  intros He Hn. destruct (c_explicit c) as [[|]|] eqn:Ex; [reflexivity| |];
+    exfalso; apply Hn; apply exception_view_default_unchecked; try exact He; rewrite Ex; discriminate.
+Qed.
+
+(* the converse is not vacuous: told to, an exception view does reject (spec and code agree on the gate) *)
+Lemma exception_view_told_is_gated c r :
+  c_exception_only c = true -> c_explicit c = Some true -> wf_tokens c r = true ->
+  (view_outcome c r = Ran <-> spec_runs c r = true).
+Proof. intros _ _. apply csrf_gate. Qed.
